@@ -13,6 +13,8 @@ from ..bridge import close, mat, ring, vec
 from ..common import Snap
 from ..tlc import TLCError
 
+# violation keys of behaviour modelled beyond the statement of the property (reported, never an alarm)
+BEYOND = ("circuit:",)
 INV = ["SparseIsDefinition", "HermConjIsAdjoint", "IsHermitianIffMatrixIs", "MatrixPauliRoundTrip", "ReverseIsBitReversal", "ExpectationIsQuadraticForm", "TermCircuitIsString"]
 
 
